@@ -244,6 +244,15 @@ def one_event(kind, text, absl, src):
 
 def build_obj(kind, seed):
     rng = random.Random(seed)
+    if kind in ("dfa", "nfa") and seed % 5 == 4:
+        # states named like the alphabet symbols (digits 0,1,2 over {0,1}; letters a,b,c over {a,b})
+        S = rng.choice(["01", "ab"])
+        k = rng.randint(1, 3)
+        X = (U.random_dfa(rng, k, S, prefix="") if kind == "dfa"
+             else U.random_nfa(rng, k, S, eps=rng.choice(["ε", "_"]), prefix=""))
+        if S == "ab":
+            X = U.rename_fa(X, {str(i): "abc"[i] for i in range(k)})
+        return X
     if kind == "dfa":
         return U.random_dfa(rng, rng.randint(1, 3), rng.choice(["a", "ab", "ab", "01"]), prefix=rng.choice(["s", "q", "p"]))
     if kind == "nfa":
